@@ -568,10 +568,10 @@ reg(Spec(
 def c12_runs(tier, seed):
     n = q(tier, 6000, 400000)
     runs = [RunSpec("interp", "Q", "plain", n),
-            RunSpec("interp", "d", "plain", n)]
+            RunSpec("interp", "d", "plain", n),
+            RunSpec("interp", "ld", "plain", n // 2)]
     if tier == "thorough":
         runs += [RunSpec("interp", "f", "plain", n // 2),
-                 RunSpec("interp", "ld", "plain", n // 2),
                  RunSpec("interp", "Q", "nochk", n // 8, defines=("MAXORD=7",))]
     return runs
 
@@ -746,9 +746,9 @@ def c20_runs(tier, seed):
     runs = []
     for fl in ("asan", "dbgstl"):
         runs += [
-            ex_spec("DIFFUSION", ["diffusion.cpp"], fl, q(tier, 90, 3000), 15),
+            ex_spec("DIFFUSION", ["diffusion.cpp"], fl, q(tier, 300, 3000), 15),
             ex_spec("POTENTIAL", ["spline-potential.cpp"], fl,
-                    q(tier, 48, 960), 16),
+                    q(tier, 96, 960), 16),
             ex_spec("FIXED", ["harmonic-oscillator.cpp", "hydrogen.cpp"], fl,
                     2, 2),
         ]
